@@ -35,6 +35,11 @@ ENTRY = dict(
             "is treated as a model/implementation disagreement and judged by the PTM residual",
             "np.exp(1j*x) is modelled as cos x + i sin x and exp of a sum as the product of the factors; binary64 rounding is not "
             "modelled (coefficients compared within 1e-12)",
+            "Observation (outside the claim): the registry is keyed by instruction NAME, in the source and in the model; an "
+            "instruction that merely carries a registered name (QuantumCircuit(2,name='cx').to_gate(), Gate('cx',3,[]), "
+            "Instruction('swap',2,0,[]), Gate('move',1,[])) receives the registered basis, and Gate('rzz',2,[]) raises IndexError "
+            "(theorem c02_missing_param_crashes). Such inputs are generated as an observation stream; the oracle is silent on them",
+            "nan/inf angles are outside 'all real angles' and are not generated",
             "rotation parameters are symbolic (2*theta', +-pi/2, +-pi/4); the harness checks that the observed float parameter equals "
             "the float value of the modelled symbol exactly",
         ],
